@@ -25,6 +25,31 @@ CONTENTS = [b"", b"one", b"two", b"\x00\xff", b"k" * 65536, b"m" * 131072, b"n" 
 CTYPES = ["application/pdf", "text/plain", "", "text/plain; charset=utf-8", "TEXT/PLAIN", "text/plain; charset=iso-8859-1"]
 
 
+class ShortRaw(io.RawIOBase):
+    """an unbuffered binary stream that hands out at most 5 bytes per read call (pipes and sockets behave like this)"""
+
+    def __init__(self, data):
+        self.data, self.pos = data, 0
+
+    def readable(self):
+        return True
+
+    def readinto(self, b):
+        n = min(len(b), 5, len(self.data) - self.pos)
+        b[:n] = self.data[self.pos:self.pos + n]
+        self.pos += n
+        return n
+
+
+def stream_of(data, k):
+    """the bytes as one of the binary streams a caller may pass: BytesIO, a raw stream with short reads, a buffered reader"""
+    if k % 3 == 0 or len(data) > 4096:
+        return io.BytesIO(data)
+    if k % 3 == 1:
+        return ShortRaw(data)
+    return io.BufferedReader(ShortRaw(data), buffer_size=16)
+
+
 def gen_case(rng, maxlen):
     pool = rng.choice(NAME_POOLS)
     n = rng.randint(1, maxlen)
@@ -76,7 +101,7 @@ def run_sdk(pool, ops):
             if op[0] == "add":
                 _, name, ci, ti = op
                 before = dict(ghost)
-                res = cont.add_file(name, io.BytesIO(CONTENTS[ci]), CTYPES[ti])
+                res = cont.add_file(name, stream_of(CONTENTS[ci], k + len(ops)), CTYPES[ti])
                 out = [0] + enc_str(res)
                 want = (CONTENTS[ci], CTYPES[ti])
                 if not isinstance(res, str):
@@ -146,7 +171,7 @@ class Client:
             if op[0] == "add":
                 _, name, ci, ti = op
                 want = (CONTENTS[ci], CTYPES[ti])
-                res = cont.add_file(name, io.BytesIO(CONTENTS[ci]), CTYPES[ti])
+                res = cont.add_file(name, stream_of(CONTENTS[ci], len(self.ghost) + ci), CTYPES[ti])
                 if not isinstance(res, str):
                     return "add_file returned a non-string"
                 if ghost.get(name) in (None, want) and res != name:
@@ -246,6 +271,28 @@ def run_pair(pool, ops_a, ops_b, schedule):
     return None
 
 
+HANG_S = 5
+HANGS = [0]      # number of hangs seen in this run; after three the streams stop (every further case would hang too)
+
+
+def _guard(f, hang_result):
+    def g(*a):
+        try:
+            with common.deadline(HANG_S):
+                return f(*a)
+        except common.Hang:
+            HANGS[0] += 1
+            return hang_result(*a)
+    return g
+
+
+_run_sdk_raw, _run_sparse_raw, _run_pair_raw = run_sdk, run_sparse, run_pair
+_HANG_MSG = f"an operation of the container did not return within {HANG_S} s (hang)"
+run_sdk = _guard(_run_sdk_raw, lambda pool, ops: ([[[97]]], (len(ops) - 1, _HANG_MSG)))
+run_sparse = _guard(_run_sparse_raw, lambda pool, ops, mode: (len(ops) - 1, _HANG_MSG))
+run_pair = _guard(_run_pair_raw, lambda pool, a, b, sched: (0, _HANG_MSG))
+
+
 def coq_op(op):
     if op[0] == "add":
         return f"Add {coq_str(op[1])} {op[2]}%nat {op[3]}%nat"
@@ -261,10 +308,14 @@ def shrink(pool, ops, pred):
     """delta debugging on the op list; pred(ops) -> True if still failing"""
     cur = list(ops)
     changed = True
+    n_eval = 0
     while changed:
         changed = False
         for i in range(len(cur)):
             cand = cur[:i] + cur[i + 1:]
+            n_eval += 1
+            if n_eval > (8 if HANGS[0] else 400):      # every evaluation of a hanging history costs HANG_S seconds
+                return cur
             if cand and pred(cand):
                 cur = cand
                 changed = True
@@ -305,6 +356,8 @@ def run(chk):
         cases.append(gen_case(rng, maxlen))
     terms = []
     for pool, ops in cases:
+        if HANGS[0] >= 3:
+            break
         trace, fail = run_sdk(pool, ops)
         chk.seen((pool, ops), nontrivial=len(ops) >= 2)
         chk.count(f"len={len(ops)}")
@@ -322,6 +375,8 @@ def run(chk):
             chk.samples.append({"pool": pool, "ops": ops, "sdk_trace_first_step": trace[0]})
     # further observation schedules and two containers alive at once (oracle only; the model has no cache and no shared state)
     for idx, (pool, ops) in enumerate(cases):
+        if HANGS[0] >= 3:
+            break
         mode = idx % 3
         bad_s = run_sparse(pool, ops, mode)
         chk.count(f"sparse-mode={mode}")
@@ -332,6 +387,8 @@ def run(chk):
                      {"pool": pool, "ops": small, "mode": mode, "how": "tools/c19.py run_sparse(pool, ops, mode)"})
     n_pairs = 0
     for idx in range(0, len(cases) - 1, 2):
+        if HANGS[0] >= 3:
+            break
         (pool, ops_a), (pool_b, ops_b) = cases[idx], cases[idx + 1]
         if pool != pool_b:
             ops_b = [(o[0], pool[pool_b.index(o[1])]) + tuple(o[2:]) for o in ops_b]
